@@ -20,7 +20,7 @@ vlib.standard_check({
     # harness args after the seed: ncases ncycles mode   (mode bit1: WaitStable + reads right after power-on; bit2: time steps that are
     # flushed twice (WaitFor(0) after WaitStable, runs ending exactly on a clock edge); bit0: sub-picosecond WaitFor delays)
     "streams": {"quick": [[60, 120, 0], [25, 40, 2], [25, 40, 4]],
-                "thorough": [[600, 300, 0], [100, 3000, 0], [300, 60, 2], [300, 60, 4]]},
+                "thorough": [[800, 300, 0], [80, 3000, 0], [400, 60, 2], [400, 60, 4]]},
     "search": [[150, 100, 0], [60, 60, 6]],
     "signature": signature,
     "eval_key": "ops",
